@@ -149,10 +149,74 @@ fn check_backend<F: Backend>(
                 }
             }
         }
+        // (the partial-export function is judged below, outside this loop)
         if smp.iter().any(|g| [g.dx, g.dy, g.dz].iter().filter(|d| **d != 0.0).count() != 1 || ![g.dx, g.dy, g.dz].iter().any(|d| *d == 1.0)) {
             st.inc("samples_with_non_axis_seeds");
         }
         st.inc("samples");
+    }
+    // ---- partial export: the all-nodes function keeps every value alive to
+    // the end, which hides register-aliasing patterns (an operand dying at the
+    // op that reuses its register). A second function exports a random subset;
+    // each exported node is judged with the chain rule applied to the
+    // operand duals of the all-nodes twin, and its value against the twin's.
+    let mut r = crate::util::Rng::new(p.hash() ^ samples.len() as u64);
+    let subset: Vec<usize> = (0..order.len()).filter(|i| *i + 1 == order.len() || r.chance(0.35)).collect();
+    let sub_nodes: Vec<Node> = subset.iter().map(|&i| order[i]).collect();
+    let fsub = F::new(&b.ctx, &sub_nodes).unwrap();
+    let sslot = slot_map(fsub.vars(), &b.vars).unwrap();
+    if !sslot.is_empty() {
+        let scols: Vec<Vec<Grad>> = sslot.iter().map(|&s| samples.iter().map(|smp| smp[s]).collect()).collect();
+        child::note(&format!("C05 {name} grad slice eval (partial export) | program {:016x}", p.hash()));
+        let sout = match guarded(|| grad_slice_eval(&fsub, &scols)) {
+            Ok(Ok(o)) => o,
+            Ok(Err(e)) => return Err(Viol { sig: format!("{name}:eval_error"), msg: e, detail: json!(null) }),
+            Err(pi) => return Err(Viol { sig: format!("{name}:panic:{}", pi.site()), msg: format!("gradient evaluation panicked: {}", pi.msg), detail: json!(null) }),
+        };
+        st.inc("partial_export_functions");
+        for (j, smp) in samples.iter().enumerate() {
+            let by_slot: Vec<f32> = smp.iter().map(|g| g.v).collect();
+            let info = analyse_with(b, order, &by_slot, false);
+            for (k, &i) in subset.iter().enumerate() {
+                let n = order[i];
+                let got = sout[k][j];
+                if info.taint[&n] == Taint::Clean && !same_bits(got.v, out[i][j].v) {
+                    let opn = op_name(&b.ctx, n);
+                    return Err(Viol {
+                        sig: format!("value_partial_export:{name}:{opn}"),
+                        msg: format!("{name}: node {opn} evaluates to {:?} in a function exporting a subset of the nodes, but to {:?} when every node is exported", got.v, out[i][j].v),
+                        detail: json!({"node_op": opn, "inputs_by_var_slot": smp.iter().map(|g| format!("{g:?}")).collect::<Vec<_>>()}),
+                    });
+                }
+                let (rule, opn) = match *b.ctx.get_op(n).unwrap() {
+                    Op::Unary(o, a) => {
+                        let o = map_un(o);
+                        (dual::un_rule(o, to_d(out[idx[&a]][j])), o.name())
+                    }
+                    Op::Binary(o, a, c) => {
+                        let o = map_bin(o);
+                        (dual::bin_rule(o, to_d(out[idx[&a]][j]), to_d(out[idx[&c]][j])), o.name())
+                    }
+                    _ => continue,
+                };
+                if rule.skip {
+                    continue;
+                }
+                st.inc("partial_export_nodes_judged");
+                for c in 0..3 {
+                    let g = [got.dx, got.dy, got.dz][c] as f64;
+                    let want = rule.out.d[c];
+                    let tol = 64.0 * EPS32 * rule.t[c] + 1e-37;
+                    if !((g - want).abs() <= tol) {
+                        return Err(Viol {
+                            sig: format!("partial_partial_export:{name}:{opn}"),
+                            msg: format!("{name}: in a function exporting a subset of the nodes, partial {c} of {opn} is {g:e}; the derivative rule on the operands' duals gives {want:e}"),
+                            detail: json!({"op": opn, "got": format!("{got:?}"), "inputs_by_var_slot": smp.iter().map(|g| format!("{g:?}")).collect::<Vec<_>>()}),
+                        });
+                    }
+                }
+            }
+        }
     }
     Ok(())
 }
